@@ -56,7 +56,7 @@ def correspondence(ck, binpath, n):
     if rc != 0:
         ck.tie_broken("harness c04 corr failed", err[-2000:])
         return
-    hs = [json.loads(l) for l in out.splitlines() if l.strip()]
+    hs = [json.loads(l) for l in jlines(out) if l.strip()]
     terms = [hist_to_coq(h) for h in hs]
     failing = ck.coq_failing("corr_hist", terms, ["EV.C01.Model", "EV.C04.Model", "EV.C04.Corr"], check_fn="check_history",
                              case_type="list hstep", per_shard=25)
@@ -79,7 +79,7 @@ def search(ck, binpath, n):
     if rc != 0:
         ck.tie_broken("harness c04 search failed", err[-2000:])
         return
-    for l in out.splitlines():
+    for l in jlines(out):
         if not l.strip():
             continue
         v = json.loads(l)
@@ -98,7 +98,7 @@ def replay(ck, binpath, path):
         if h is None:
             continue
         rc, out, err = ck.run_bin(binpath, ["one", "--history-json", json.dumps(h)])
-        for l in out.splitlines():
+        for l in jlines(out):
             if l.strip():
                 vv = json.loads(l)
                 ck.violation(vv["signature"], vv["what"], {"history": vv["history"]})
